@@ -253,7 +253,7 @@ func (sel *Selection) Constrain(params string) (*Selection, error) {
 		return nil, err
 	}
 	copy := *sel
-	if err = BuildConstraints(&copy, dummy.Query()); err != nil {
+	if err = BuildConstraints(&copy, queryValues(dummy.RawQuery)); err != nil {
 		return nil, err
 	}
 	copy.Context = copy.Constraints.ContextConstraint(sel)
